@@ -151,6 +151,9 @@ def seeded(only, budget, all_props=False):
             for pr in props:
                 rc, viol, oracles, out = _run_check(pr, os.path.join(d, "src"), budget)
                 status = "CAUGHT" if rc == 1 and viol else ("HARNESS" if rc == 2 else "MISSED")
+                if meta.get("superseded_by_fix"):
+                    # a later repair made this change harmless (its demo passes on the current tree): must stay quiet
+                    status = {"CAUGHT": "FALSE-ALARM", "MISSED": "QUIET-OK"}.get(status, status)
                 res.append({"id": name, "property": pr, "status": status, "oracles": oracles[:3]})
                 print(f"{name:40s} {pr} {status:8s} {oracles[:2]}")
                 if status == "HARNESS":
@@ -270,8 +273,10 @@ def main():
     if a.out:
         with open(a.out, "w") as f:
             json.dump(res, f, indent=1)
-    missed = [r for r in res if r["status"] not in ("CAUGHT", "NOT-APPLICABLE")]
-    print(f"{a.what}: {len(res)} run, {len([r for r in res if r['status'] == 'CAUGHT'])} caught, {len(missed)} not caught")
+    missed = [r for r in res if r["status"] not in ("CAUGHT", "NOT-APPLICABLE", "QUIET-OK")]
+    quiet = len([r for r in res if r["status"] == "QUIET-OK"])
+    print(f"{a.what}: {len(res)} run, {len([r for r in res if r['status'] == 'CAUGHT'])} caught, {len(missed)} not caught"
+          + (f", {quiet} superseded by a later repair and quiet as expected" if quiet else ""))
     return 0 if not missed else 1
 
 
